@@ -16,7 +16,8 @@ import CelmaVerif.Model.Regex
   variable as additional sources; evaluation through Groups.
   Not modelled: sub-groups, bracket handlers (absent ⇒ '(' and ')' are unknown), inversion
   support (absent ⇒ '!' followed by an argument is refused), value mode `command`, callables,
-  formats, other destination types.
+  formatters other than uppercase / lowercase (anycase, format functions, positional formatters), other
+  destination types.
 -/
 namespace CelmaVerif.ProgArgs
 open CelmaVerif CelmaVerif.Keys
@@ -56,6 +57,13 @@ inductive CType where
   | required | excluded
   deriving DecidableEq, Repr, Inhabited
 
+/-- value formatter of an argument (`addFormat( uppercase())` / `addFormat( lowercase())`:
+    detail/format_uppercase.cpp, format_lowercase.cpp — `boost::to_upper` / `boost::to_lower` in the
+    "C" locale: the 26 ASCII letters); `none` = `mFormats.empty()` -/
+inductive Fmt where
+  | none | upper | lower
+  deriving DecidableEq, Repr, Inhabited
+
 structure ArgDef where
   key         : Key
   kind        : Kind
@@ -71,6 +79,7 @@ structure ArgDef where
   flagValue   : Bool := true             -- TypedArg<bool>::mValue2Set = !initial value
   deprecated  : Bool := false
   mixIncSet   : Bool := false            -- LevelCounter: setAllowMixIncSet()
+  fmt         : Fmt := .none             -- addFormat( uppercase() / lowercase()) (string destinations, see `assignDest`)
   deriving Repr, Inhabited
 
 inductive GKind where
@@ -174,6 +183,15 @@ def lexCastInt (s : Word) : Res Int :=
 def toLowerAscii (c : Char) : Char :=
   if 'A' ≤ c ∧ c ≤ 'Z' then Char.ofNat (c.toNat + 32) else c
 
+def toUpperAscii (c : Char) : Char :=
+  if 'a' ≤ c ∧ c ≤ 'z' then Char.ofNat (c.toNat - 32) else c
+
+/-- `TypedArgBase::format( val)`: the formatter stored for the argument applied to (a copy of) the value -/
+def Fmt.apply : Fmt → Word → Word
+  | .none, v => v
+  | .upper, v => v.map toUpperAscii
+  | .lower, v => v.map toLowerAscii
+
 def Check.run (c : Check) (val : Word) : Res Unit :=
   match c with
   | .lower v => do
@@ -244,7 +262,13 @@ def ArgSt.hasValue (k : Kind) (st : ArgSt) : Bool :=
   | .vecInt => match st.dest with | .vec l => !l.isEmpty | _ => false
   | _ => st.hasValueSet
 
-/-- `TypedArg<…>::assign( value, inverted)` per destination kind -/
+/-- `TypedArg<…>::assign( value, inverted)` per destination kind.  `TypedArg< T>::assign` (typed_arg.hpp):
+    `check( value)` on the text AS TYPED, then — if a formatter is stored — `format( valCopy)` on a copy, then
+    `boost::lexical_cast< T>` of the formatted copy, then `mHasValueSet = true` (on both paths).  For a string
+    destination the formatted text is what is stored.  For the `int`-typed destinations (int, LevelCounter with a
+    value, the elements of vector<int>) the case formatters change no character that `lexical_cast< int>` accepts
+    and turn no refused text into an accepted one: `lexCastInt_fmt` (Lemmas/Formats.lean) proves
+    `lexCastInt (f.apply v) = lexCastInt v`, which is why `fmt` does not appear in those branches. -/
 def assignDest (d : ArgDef) (st : ArgSt) (value : Word) : Res ArgSt :=
   match d.kind with
   | .flag => .ok { st with dest := .flag d.flagValue, hasValueSet := true }
@@ -254,7 +278,7 @@ def assignDest (d : ArgDef) (st : ArgSt) (value : Word) : Res ArgSt :=
     pure { st with dest := .int v, hasValueSet := true }
   | .str => do
     runChecks d.checks value
-    pure { st with dest := .str value, hasValueSet := true }
+    pure { st with dest := .str (d.fmt.apply value), hasValueSet := true }
   | .level =>
     let cur := match st.dest with | .level n => n | _ => 0
     if value.isEmpty then do
